@@ -63,6 +63,32 @@ func defersRestorer(w *World, fn *ssa.Function) bool {
 			}
 		}
 	}
+	// an unexported helper every caller of which has deferred the restoration before it calls the helper
+	if obj := fn.Object(); obj != nil && !obj.Exported() && fn.Parent() == nil && len(w.Callers[fn]) > 0 {
+		for _, ci := range w.Callers[fn] {
+			p := ci.Parent()
+			if p == nil || p == fn || ci.Common().StaticCallee() != fn || len(p.Blocks) == 0 || ci.Block() != p.Blocks[0] {
+				return false
+			}
+			before := false
+			for _, ins := range p.Blocks[0].Instrs {
+				if ins == ssa.Instruction(ci) {
+					break
+				}
+				if d, ok := ins.(*ssa.Defer); ok {
+					for _, c := range w.Callees[d] {
+						if isRestorer(c) {
+							before = true
+						}
+					}
+				}
+			}
+			if !before {
+				return false
+			}
+		}
+		return true
+	}
 	return false
 }
 
